@@ -16,11 +16,14 @@ def KV.del (s : KV) (k : Bytes) : KV := fun k' => if k' = k then none else s k'
 
 /-- `BadgerDB.Put(ctx, tk, v)` for a versioned context (one transaction) -/
 def putV (s : KV) (i ver : Nat) (tk val : Bytes) : KV :=
-  (s.set (dataKey i ver 0 tk false) val).del (dataKey i ver 0 tk true)
+  if Gen.storePutClearsTombstone then (s.set (dataKey i ver 0 tk false) val).del (dataKey i ver 0 tk true)
+  else s.set (dataKey i ver 0 tk false) val
 
 /-- `BadgerDB.Delete(ctx, tk)` for a versioned context (one transaction); `goBatch.Delete` is the same pair -/
 def delV (s : KV) (i ver : Nat) (tk : Bytes) : KV :=
-  (s.del (dataKey i ver 0 tk false)).set (dataKey i ver 0 tk true) []
+  if Gen.storeDeleteWritesTombstone then (s.del (dataKey i ver 0 tk false)).set (dataKey i ver 0 tk true) []
+  else if (s (dataKey i ver 0 tk false)).isSome then s.del (dataKey i ver 0 tk false)   -- a conditional shape
+  else s.set (dataKey i ver 0 tk true) []
 
 /-- what the store holds for datum `(i, tk)` at version `ver`, in the form the resolver consumes.
     If both keys were present the tombstone would win or lose depending on iteration order; `NoBoth`
